@@ -592,10 +592,9 @@ func runSerial(c *svcCase) vh.Verdict {
 			s.mon.mu.Unlock()
 			got = s.issue(preps[cl-1])
 		}()
-		select {
-		case <-done:
-		case <-time.After(5 * time.Second):
-			return vh.Verdict{OK: false, Key: "deadlock:" + c.Path + ":" + reqSig(r), Msg: fmt.Sprintf("request %s (%s) did not return within 5 s when run alone", reqSig(r), expression(r))}
+		fin := make([]atomic.Bool, len(c.Reqs))
+		if stuck, dump := waitOrDeadlock(done, s.mon, fin); len(stuck) > 0 {
+			return vh.Verdict{OK: false, Key: "deadlock:" + c.Path + ":" + reqSig(r), Msg: fmt.Sprintf("request %s (%s) never returns when run alone after %v\n%s", reqSig(r), expression(r), c.Order, trim(dump, 4000))}
 		}
 		obs[fmt.Sprint("resp", cl)] = got
 		if c.CheckResp && cl-1 < len(c.Resp) {
@@ -815,16 +814,8 @@ func runConcOnce(c *svcCase, preps []prepared, rep int, gated bool) concResult {
 	} else {
 		start.Store(true)
 	}
-	select {
-	case <-allDone:
-	case <-time.After(4 * time.Second):
-		for i := range finished {
-			if !finished[i].Load() {
-				res.stuck = append(res.stuck, i+1)
-			}
-		}
-		buf := make([]byte, 1<<16)
-		res.dump = string(buf[:runtime.Stack(buf, true)])
+	if stuck, dump := waitOrDeadlock(allDone, s.mon, finished); len(stuck) > 0 {
+		res.stuck, res.dump = stuck, dump
 		return res
 	}
 	res.final, res.fobj, res.idx = s.observe()
@@ -833,6 +824,66 @@ func runConcOnce(c *svcCase, preps []prepared, rep int, gated bool) concResult {
 		res.monitorKV = append(res.monitorKV, "two-worlds-for-one-id\x00"+msg)
 	}
 	return res
+}
+
+// waitOrDeadlock waits for the clients.  A wall-clock limit alone would call a slow machine a deadlock, so after
+// 3 s it looks at the goroutines of the unfinished clients: a deadlock is declared only when all of them are
+// parked in a blocking operation (lock, semaphore, channel) with identical stacks in two dumps 1 s apart.
+func waitOrDeadlock(allDone chan struct{}, mon *monitor, finished []atomic.Bool) ([]int, string) {
+	limit := time.Now().Add(90 * time.Second)
+	wait := 3 * time.Second
+	prev := ""
+	for {
+		select {
+		case <-allDone:
+			return nil, ""
+		case <-time.After(wait):
+		}
+		wait = time.Second
+		buf := make([]byte, 1<<18)
+		dump := string(buf[:runtime.Stack(buf, true)])
+		mon.mu.Lock()
+		ids := map[int64]int{}
+		for g, c := range mon.clients {
+			if !finished[c-1].Load() {
+				ids[g] = c
+			}
+		}
+		mon.mu.Unlock()
+		var stuck []int
+		allBlocked := len(ids) > 0
+		var mine []string
+		for _, block := range strings.Split(dump, "\n\n") {
+			var g int64
+			var state string
+			if n, _ := fmt.Sscanf(block, "goroutine %d [%s", &g, &state); n < 2 {
+				continue
+			}
+			c, ok := ids[g]
+			if !ok {
+				continue
+			}
+			stuck = append(stuck, c)
+			mine = append(mine, block)
+			st := strings.TrimRight(state, "]:,")
+			if st == "running" || st == "runnable" || st == "syscall" || st == "sleep" {
+				allBlocked = false
+			}
+		}
+		sort.Ints(stuck)
+		cur := strings.Join(mine, "\n\n")
+		if allBlocked && cur == prev {
+			return stuck, cur
+		}
+		if allBlocked {
+			prev = cur
+		} else {
+			prev = ""
+		}
+		if time.Now().After(limit) {
+			return stuck, "no progress for 90 s\n" + cur
+		}
+	}
 }
 
 // replay drives the clients through the gates in the order of a TLC schedule.  It returns a non-empty
@@ -961,7 +1012,7 @@ func runConc(c *svcCase, gated bool) vh.Verdict {
 		stats["concurrent_runs"]++
 		if len(res.stuck) > 0 {
 			return vh.Verdict{OK: false, Key: "deadlock:" + c.Path + ":" + c.Sig, Stats: stats,
-				Msg: fmt.Sprintf("%s: requests %s issued together: clients %v did not return within 4 s\n%s", c.Path, c.Sig, res.stuck, trim(res.dump, 6000))}
+				Msg: fmt.Sprintf("%s: requests %s issued together: clients %v never return (all blocked, no progress)\n%s", c.Path, c.Sig, res.stuck, trim(res.dump, 6000))}
 		}
 		obs := map[string]interface{}{"final": res.fobj, "resps": res.resps, "rep": rep}
 		if len(res.monitorKV) > 0 {
